@@ -5,7 +5,6 @@ PENDING.update({
  "C08": "check not built yet in this revision (planned: engine procsim)",
  "C14": "check not built yet in this revision (planned: engines iosim + procsim)",
  "C15": "check not built yet in this revision (planned: engine procsim)",
- "C16": "check not built yet in this revision (planned: engine iosim)",
  "C17": "check not built yet in this revision (planned: engine iosim)",
  "C18": "check not built yet in this revision (planned: engine procsim)",
 })
@@ -32,3 +31,9 @@ check("C03", "iosim", "exploration",
   "The model decides 'does this line match' with the regex crate on the line content; the pattern pool is kept to patterns whose per-line meaning is uncontroversial (C01's territory is not judged). The history-independent part of C03 is covered only as strongly as random generation covers it.",
   "deterministic simulation: seeded read histories + executable reference model as oracle",
   "DESIGN.md section 5/C03")
+
+check("C16", "iosim", "fault_enumeration",
+  "Crash-point enumeration inside seeded cases: for each generated (input, pattern, configuration) and for the slice strategy and a reader under a seeded history/capacity (line and multi-line search loops, binary detection off/quit/convert with planted NULs so binary notices exist), the uninterrupted event stream E is recorded and then every crash point is executed: SimSink answers stop and, separately, error at every event index (begin, match, context, separator, binary notice); SimReader returns an error and, separately, Interrupted at every read index of the fault-free read log (all indices up to 160, else first/last 40 plus 80 seeded). Oracles: stop at k => delivered == E[0..=k], exactly one finish, Ok; sink error at k => delivered == E[0..=k], no finish, the injected error returned; read error at j => delivered is a prefix of E, no finish, the reader's error returned; Interrupted => retried with identical results (or a clean prefix). Plus Standard/JSON/Summary printers with max_matches = N for every N in 0..#matches+1 on slice and reader against the model's stream cut after the N-th selected line's trailing context, and a SimWriter failing after k bytes (error returned, exactly k bytes written, no write attempted afterwards).",
+  "Exhaustive over crash points within a case (read indices sampled beyond 160 reads); cases are sampled from the seed. The byte count passed to finish after a stop is not constrained here.",
+  "deterministic simulation: exhaustive fault/crash-point injection at every sink event and read index per seeded case",
+  "DESIGN.md section 5/C16")
